@@ -146,7 +146,18 @@ func (s *Service) FetchAccountByKey(ctx context.Context, pubKey []byte) (e2wtype
 		}
 	}
 
-	return s.FetchAccount(ctx, path)
+	wallet, account, err := s.FetchAccount(ctx, path)
+	if err != nil {
+		return nil, nil, err
+	}
+	// The path may resolve to a different account, for example if more than
+	// one store contains a wallet with the same name; do not hand that out.
+	if bytesutil.ToBytes48(account.PublicKey().Marshal()) != bytesutil.ToBytes48(pubKey) {
+		log.Warn().Str("path", path).Msg("Account at path does not have requested public key")
+		return nil, nil, errors.New("public key does not match account")
+	}
+
+	return wallet, account, nil
 }
 
 // FetchAccounts fetches all accounts for the wallet.
